@@ -105,7 +105,7 @@ def gen_cset(r_, size):
     return ents
 
 
-def gen_old(r_, cset, extra=3):
+def gen_old(r_, cset, extra=3, benign=False):
     """A pre-existing root built to collide with cset: list of object dicts (paths relative to merge root)."""
     old, taken = [], {}
 
@@ -135,6 +135,8 @@ def gen_old(r_, cset, extra=3):
             k = r_.choice(["dir", "dir", "dir", "symdir", "symdir", "symdir-abs", "dangling", "file", "symfile"])
         else:
             k = r_.choice(["same", "same", "same", "file", "sym", "symdir", "dir", "fifo", "dangling", "hardlinked", "stale"])
+        if benign and k in ("file", "symfile", "dir") and (t == "dir") != (k == "dir"):
+            k = "dir" if t == "dir" else "file"   # no refusals: the retry family must reach the end of the merge
         if k == "same":
             k = {"file": "file", "sym": "sym", "fifo": "fifo"}[t]
         if k == "dir":
@@ -171,9 +173,92 @@ def gen_old(r_, cset, extra=3):
     return old
 
 
-def gen_scenario(r_, size):
+def add_retries(r_, cset, old):
+    """Decorate a scenario with the tolerated CannotOverwrite retry of merge_contents: symlink entries whose
+    location is an existing real directory and whose target is a directory, placed in the middle of the
+    iteration order, with a hardlink group (and whatever else the scenario holds) on both sides of them."""
+    otype = {o["path"]: o["type"] for o in old}
+    ctype = {e["path"]: e["type"] for e in cset}
+
+    def clean_dir(p):  # p and its ancestors end up as real directories
+        while p:
+            if otype.get(p, "dir") != "dir" or ctype.get(p, "dir") != "dir":
+                return False
+            p = os.path.dirname(p)
+        return True
+
+    def old_dir(p):
+        if not p or p in otype:
+            return
+        old_dir(os.path.dirname(p))
+        o = dict(path=p, type="dir", content="", target="", link_to="")
+        o.update(_attrs(r_, MODES_D))
+        old.append(o)
+        otype[p] = "dir"
+
+    def new_file(parent, name, like=None):
+        e = dict(path=f"{parent}/{name}" if parent else name, type="file", content=_content(r_, name), target="", grp=0, src="local")
+        e.update(_attrs(r_, MODES_F))
+        if like:
+            for f in ("content", "mode", "uid", "gid", "mtime", "grp"):
+                e[f] = like[f]
+        ctype[e["path"]] = "file"
+        return e
+
+    homes = [""] + [p for p, t in ctype.items() if t == "dir" and clean_dir(p)]
+    syms = []
+    for j in range(r_.randint(1, 2)):
+        tgt = r_.choice([p for p in homes if p] + [f"rd{j}"] * 2)
+        if tgt.startswith("rd"):
+            old_dir(tgt)
+            if r_.random() < 0.5:
+                old.append(dict(path=tgt + "/inside", type="file", content="behind the link", target="", link_to="", **_attrs(r_, MODES_F)))
+                otype[tgt + "/inside"] = "file"
+        parent = r_.choice(homes)
+        p = f"{parent}/lk{j}" if parent else f"lk{j}"
+        old_dir(p)
+        if r_.random() < 0.6:
+            old.append(dict(path=p + "/keep", type="file", content="other package", target="", link_to="", **_attrs(r_, MODES_F)))
+            otype[p + "/keep"] = "file"
+        e = dict(path=p, type="sym", content="", grp=0, src="local",
+                 target=r_.choice([os.path.relpath(tgt, parent or "."), "@ROOT@/" + tgt]))
+        e.update(_attrs(r_, [0o777]))
+        ctype[p] = "sym"
+        syms.append(e)
+    # a hardlink group with members on both sides of the first retry
+    files = [e for e in cset if e["type"] == "file" and otype.get(e["path"], "file") != "dir" and clean_dir(os.path.dirname(e["path"]))]
+    grouped = [e for e in files if e["grp"]]
+    if grouped:
+        a = r_.choice(grouped)
+    else:
+        a = r_.choice(files) if files else new_file(r_.choice(homes), "hl-a")
+        if a not in cset:
+            cset.append(a)
+        a["grp"], a["src"] = 7, "local"
+    mates = [e for e in cset if e is not a and e["type"] == "file" and e["grp"] == a["grp"]]
+    if not mates or r_.random() < 0.5:
+        b = new_file(r_.choice(homes), f"hl-b{len(cset)}", like=a)
+        cset.append(b)
+        mates.append(b)
+    b = r_.choice(mates)
+    rest = [e for e in cset if e is not a and e is not b]
+    r_.shuffle(rest)
+    cut1, cut2 = sorted((r_.randint(0, len(rest)), r_.randint(0, len(rest))))
+    order = rest[:cut1] + [a] + rest[cut1:cut2] + [syms[0]] + rest[cut2:] + [b]
+    for e in syms[1:]:
+        order.insert(r_.randint(0, len(order)), e)
+    if r_.random() < 0.5:  # and the mirror image: the group member after the retry comes first in the set
+        order.reverse()
+    cset[:] = order
+
+
+def gen_scenario(r_, size, retry=None):
     cset = gen_cset(r_, r_.randint(1, size))
-    return dict(cset=cset, old=gen_old(r_, cset), mode=r_.choice(["offset", "offset", "none", "missing"]),
+    retry = r_.random() < 0.35 if retry is None else retry
+    old = gen_old(r_, cset, benign=retry)
+    if retry:
+        add_retries(r_, cset, old)
+    return dict(cset=cset, old=old, mode=r_.choice(["offset", "offset", "none", "missing"] if not retry else ["offset", "none"]),
                 via=r_.choice(["ops", "ops", "engine"]))
 
 
@@ -403,11 +488,11 @@ def obj_type(snap, rel):
 KINDS = dict(  # kind universes of Merge_Cases: what d, d/f, g are before the merge / in the cset
     full=dict(ODKinds=["absent", "dir", "file", "symdir", "dangling"], OFKinds=["absent", "file", "sym", "stale"],
               OGKinds=["absent", "file", "sym", "dir", "hl"], CDKinds=["none", "dir"], CFKinds=["none", "file", "sym", "fifo"],
-              CGKinds=["none", "file", "sym", "mate"]),
+              CGKinds=["none", "file", "sym", "mate"], CHKinds=["none", "mate"]),
     small=dict(ODKinds=["dir", "file", "symdir", "dangling"], OFKinds=["absent", "file", "stale"], OGKinds=["absent", "sym", "hl", "dir"],
-               CDKinds=["none", "dir"], CFKinds=["none", "file", "sym"], CGKinds=["none", "file", "mate"]),
+               CDKinds=["none", "dir"], CFKinds=["none", "file", "sym"], CGKinds=["none", "sym", "mate"], CHKinds=["none", "mate"]),
     replace=dict(ODKinds=["dir"], OFKinds=["file", "stale"], OGKinds=["absent", "hl"], CDKinds=["dir"], CFKinds=["file"],
-                 CGKinds=["none", "mate"]),
+                 CGKinds=["none", "mate"], CHKinds=["none"]),
 )
 
 
@@ -443,6 +528,23 @@ def guards(ck, stale=True):
         raise tlc.MachineryError("Merge_MC: the stale-temp variant no longer violates DoneFits (vacuous model?)")
 
 
+def stratified(r_, exported, n):
+    """A seeded sample that holds at least one pair for every combination of what the cset contains
+    (d, d/f, g, h kinds) with what g meets on disk, and one for every (old d, old d/f, cset g) combination."""
+    pick, seen = [], set()
+    pool = list(exported)
+    r_.shuffle(pool)
+    for keyf in (lambda c: (c["cd"], c["cf"], c["cg"], c["ch"], c["og"]), lambda c: (c["od"], c["of"], c["cg"], c["ch"])):
+        for sc in pool:
+            k = keyf(sc["sel"])
+            if k not in seen:
+                seen.add(k)
+                if sc not in pick:
+                    pick.append(sc)
+    rest = [sc for sc in pool if sc not in pick]
+    return pick + rest[:max(0, n - len(pick))]
+
+
 def export_scenarios(ck):
     """spec -> code: the (old, cset) pairs Merge_MC starts from, as driver scenarios."""
     cases = ck.export("Merge_Export", cfg_text="CONSTANTS\n" + kinds_cfg("full", 1), label="Export:Merge_Cases (old, cset) pairs")
@@ -473,8 +575,8 @@ def run(ck):
         scenarios = [ck.replay_case["detail"]["scenario"]]
     else:
         exported = export_scenarios(ck)
-        if ck.quick:  # quick tier: a seeded sample of the exported pairs; thorough: all of them
-            exported = r_.sample(exported, 120)
+        if ck.quick:  # quick tier: a seeded sample of the exported pairs, thorough: all of them
+            exported = stratified(r_, exported, 150)
         else:
             ck.exhaustive = True
         scenarios += exported
